@@ -93,7 +93,10 @@ impl MultiPeerBackend for SubSocketBackend {
             .collect();
 
         for message in subs_msgs {
-            send_queue.send(Message::Message(message)).await.unwrap();
+            if send_queue.send(Message::Message(message)).await.is_err() {
+                // The connection failed before it could be told the subscriptions: do not register it.
+                return;
+            }
         }
         #[cfg(feature = "verif-hooks")]
         crate::__verif::yield_point("sub.join.after_snapshot").await;
